@@ -5,6 +5,12 @@
 // function in this package is an empty, inlinable no-op.
 package verifhook
 
+import (
+	"bytes"
+	"fmt"
+	"sort"
+)
+
 // Yield, when set by the harness, is called at every Point.
 var Yield func(site string, arg interface{})
 
@@ -30,4 +36,34 @@ func Crit(msg string) bool {
 		return CritFn(msg)
 	}
 	return false
+}
+
+// MapOrder, when set by the harness, decides the iteration order of a map whose
+// order reaches the disk: it is handed the number of keys (already sorted
+// bytewise) and a swap function, and permutes them as it sees fit.
+var MapOrder func(site string, n int, swap func(i, j int))
+
+// OrderedKeys returns the keys of m in an order the harness owns: bytewise
+// ascending, then permuted by MapOrder. (Go randomises map iteration; two
+// executions of the same plan must issue the same disk writes.)
+func OrderedKeys[K ~[32]byte | ~[20]byte, V any](site string, m map[K]V) []K {
+	if len(m) == 0 {
+		return nil
+	}
+	keys := make([]K, 0, len(m))
+	for k := range m {
+		keys = append(keys, k)
+	}
+	sort.Slice(keys, func(i, j int) bool {
+		a, b := keys[i], keys[j]
+		switch x := any(a).(type) {
+		case interface{ Bytes() []byte }:
+			return bytes.Compare(x.Bytes(), any(b).(interface{ Bytes() []byte }).Bytes()) < 0
+		}
+		return fmt.Sprint(a) < fmt.Sprint(b)
+	})
+	if MapOrder != nil {
+		MapOrder(site, len(keys), func(i, j int) { keys[i], keys[j] = keys[j], keys[i] })
+	}
+	return keys
 }
